@@ -7,6 +7,9 @@
 (* Implementation layer: one action per public call / message handler, state shaped like the code    *)
 (* (known_attestation_hashes, per-pseudonym TokenTree elements/unchained, Metadata and Attestations   *)
 (* tables with their primary keys and INSERT OR IGNORE, token_chain, permissions).                    *)
+(* Environment: Fault(t) arms a one-shot storage error on a table; every handler is modelled with the *)
+(* order of its writes and sends, so that "what left the node" and "what is on record" stay related   *)
+(* also on the error path (SentOnlyRecorded; a replay after a failed write is attested exactly once). *)
 (* Abstract layer: what the property statement demands, written over history variables (regHist,      *)
 (* signed, handed) - SignsOnlyConsented, StoresOnlyValidlySigned, TokensOnlyUpToPermitted.            *)
 EXTENDS IdentityWorld, FiniteSets, TLC
